@@ -82,9 +82,10 @@ def compile_and_run(sc, header, source):
         got = vals.get(("state", s.name))
         if got is None or abs(got - want) > 1e-9 * max(1, abs(want)):
             problems.append(f"compiled generated model returns {got} for {s.name}, expression value {want}")
+    Jx = scenarios.jacobian_at(sympy.Matrix([sc.state_model[r] for r in AS]), AS, {k: sympy.Rational(v.numerator, v.denominator) for k, v in pt.items()})
     for i, r in enumerate(AS):
         for j, c in enumerate(AS):
-            want = float(scenarios.exact(sympy.diff(sc.state_model[r], c), pt))
+            want = float(Jx[i, j])
             got = vals.get(("J", i, j))
             if got is None or abs(got - want) > 1e-9 * max(1, abs(want)):
                 problems.append(f"compiled process_jacobian({i},{j}) = {got}, d{r.name}/d{c.name} = {want}")
@@ -96,7 +97,14 @@ def generator_contracts(run):
     from contracts import cpptranslate
     from pvc import smt
 
-    items = [(c, {}) for c in cpptranslate.contracts()]
+    cs = cpptranslate.callees()
+    items = [(c, cs) for c in cpptranslate.contracts()]
+    import ast as _ast
+    import os as _os
+
+    tree = _ast.parse(open(_os.path.join(driver.REPO, "py/formak/cpp.py")).read())
+    if any(isinstance(nd, _ast.FunctionDef) and nd.name == "_partial_derivative" for nd in tree.body):
+        items.append((cpptranslate.RealPartial(), {}))
     pending = []
     for (c, _), rep in zip(items, run.verify_many(items)):
         for ob, model, definitive in driver.refuted(run, rep):
@@ -143,6 +151,28 @@ def check(run):
             run.findings.append(Finding(ob.name, "compile", f"symbols named _t0, _t1, ... (cse={cse}): generated header/source do not compile: {err[-300:]}", payload, True))
         for ob2, p in probs[:1]:
             run.findings.append(Finding(ob2.name, "names", f"symbols named _t0, _t1, ... (cse={cse}): {p}", payload, True))
+    # a model with a WRAPPED quantity (Mod(v, 3)): sympy leaves its derivative unevaluated.  Either back end may refuse such a model
+    # loudly; what the property excludes is a generated Jacobian that is not the partial derivative, and CSE deciding whether the
+    # model is accepted
+    wsc = scenarios.Scenario(2, 0, 1, [1], seed=run.seed + 11, wrapped=True)
+    outcome = {}
+    for cse in (True, False):
+        programs += 1
+        run.native_runs += 1
+        payload = {"language": "c++", "inputs": {"shape": [2, 0, 1, [1]], "seed": run.seed + 11, "cse": cse, "wrapped": True}, "model_definition": wsc.describe()}
+        try:
+            header, source, _gen = cppgen.generate(wsc, cse=cse)
+        except Exception as e:
+            outcome[cse] = f"refused ({type(e).__name__})"
+            continue
+        probs = compile_and_run(wsc, header, source)
+        outcome[cse] = "generated"
+        ob = run.prove(f"C02.cxx.wrapped_quantity.cse_{'on' if cse else 'off'}.compiled_values", [], z3.BoolVal(not probs), function=G.FN)
+        if probs:
+            run.findings.append(Finding(ob.name, "wrapped", f"model with a wrapped quantity Mod(v, 3) (cse={cse}): {probs[0]}", payload, True))
+    ob = run.prove("C02.cxx.wrapped_quantity.accepted_with_both_cse_settings_or_neither", [], z3.BoolVal(outcome[True].split()[0] == outcome[False].split()[0]), function=G.FN)
+    if outcome[True].split()[0] != outcome[False].split()[0]:
+        run.findings.append(Finding(ob.name, "wrapped", f"model with a wrapped quantity Mod(v, 3): CSE on -> {outcome[True]}, CSE off -> {outcome[False]}", {"language": "c++", "inputs": {"shape": [2, 0, 1, [1]], "seed": run.seed + 11, "cse": True, "wrapped": True}, "model_definition": wsc.describe()}, True))
     # plain (non-EKF) Model::model path
     for t, (sc, shp) in enumerate(G.corpus(run.seed + 5, 2)):
         probs, header, source = G.validate_program(run, sc, f"model{t}", cse=True, ekf=False, prefix="C02")
@@ -167,6 +197,20 @@ def replay_file(payload):
         print("replay C02: generator-level obligation without a concrete program (see the obligation's note)")
         return True
     shp = inp["shape"]
+    if inp.get("wrapped"):
+        wsc = scenarios.Scenario(shp[0], shp[1], shp[2], shp[3], seed=inp["seed"], wrapped=True)
+        out = {}
+        bad = []
+        for cse in (True, False):
+            try:
+                header, source, _g = cppgen.generate(wsc, cse=cse)
+            except Exception as e:
+                out[cse] = f"refused ({type(e).__name__})"
+                continue
+            out[cse] = "generated"
+            bad += compile_and_run(wsc, header, source)
+        print("replay C02 (wrapped quantity):", bad[:3] or out)
+        return not bad and out[True].split()[0] == out[False].split()[0]
     if inp.get("rename"):
         sc = scenarios.renamed(scenarios.Scenario(shp[0], shp[1], shp[2], shp[3], seed=inp["seed"]), inp["rename"], inp["seed"] - 3, unused_control=True)
         run = driver.PropertyRun("C02", "quick", 0)
